@@ -296,3 +296,41 @@ pub fn spec_rdh_sane(b: &[u8; 64], expect_header_id: u8, its: bool) -> bool {
 pub fn stub_format_nonempty(_args: core::fmt::Arguments<'_>) -> String {
     String::from("?")
 }
+
+// ------------------------------------------------------------------ message capture (sampled rendering checks)
+pub static mut LAST_MSG: [u8; 24] = [0; 24];
+pub static mut LAST_MSG_LEN: usize = 0;
+
+/// like stub_send, additionally keeps the first 24 bytes of the last Error message
+pub fn stub_send_capture<T>(s: &flume::Sender<T>, msg: T) -> Result<(), flume::SendError<T>> {
+    {
+        let st: &StatType = unsafe { &*(&msg as *const T as *const StatType) };
+        if let StatType::Error(m) = st {
+            let b = m.as_bytes();
+            let n = if b.len() < 24 { b.len() } else { 24 };
+            let mut i = 0;
+            while i < n {
+                unsafe { LAST_MSG[i] = b[i] };
+                i += 1;
+            }
+            unsafe { LAST_MSG_LEN = n };
+        }
+    }
+    stub_send(s, msg)
+}
+
+/// the message starts with `0x<UPPERCASE HEX OFFSET>: ` — the form the error sorter's regex `^0x[0-9A-F]+` parses
+pub fn last_msg_starts_with(prefix: &[u8]) -> bool {
+    let n = unsafe { LAST_MSG_LEN };
+    if n < prefix.len() {
+        return false;
+    }
+    let mut i = 0;
+    while i < prefix.len() {
+        if unsafe { LAST_MSG[i] } != prefix[i] {
+            return false;
+        }
+        i += 1;
+    }
+    true
+}
